@@ -122,6 +122,11 @@ func Server(g *ach.File, v *gen.OptVariant, r *rng.R) (fs []Fail) {
 	}
 	_ = json.Unmarshal(out, &created)
 	if code != 200 && code != 201 || created.ID == "" || (created.Error != nil && *created.Error != "") {
+		if strings.Contains(how, "text") && strings.Contains(errorOf(out), "ascending") && shortTraceFile(g) {
+			// the library's Reader rejects the Writer's output for such a file (same root cause as the C07 finding)
+			add("text:opts:short-trace-numbers:written-order-differs", fmt.Sprintf("POST /files/create (%s): %s", how, errorOf(out)))
+			return
+		}
 		add("server:opts:create-rejected", fmt.Sprintf("POST /files/create (%s) of a file that validates under its options answers %d %s", how, code, errorOf(out)))
 		return
 	}
@@ -342,4 +347,16 @@ func ServerText(f *ach.File, variant string, r *rng.R) (fs []Fail) {
 		}
 	}
 	return fs
+}
+
+// shortTraceFile: some standard entry's trace number is stored with fewer than 15 characters.
+func shortTraceFile(f *ach.File) bool {
+	for _, b := range f.Batches {
+		for _, e := range b.GetEntries() {
+			if len(e.TraceNumber) < 15 {
+				return true
+			}
+		}
+	}
+	return false
 }
